@@ -356,4 +356,8 @@ for _l in R.lemmas.values():
         from . import loop as _loop
         _l.replay = generic_replay(_l.func, [proto, _loop, _sys.modules[__name__]], patches=NETPATCH)
 
+for _lid in ['L12.4b', 'L12.5', 'L12.6', 'L12.7', 'L12.8']:
+    if _lid in R.lemmas:
+        R.lemmas[_lid].api = True
+
 get_harness = R.get_harness
